@@ -110,6 +110,10 @@ func worker() {
 			time.Sleep(2 * time.Second)
 			if core.SinceTick() > 120*time.Second {
 				msg := fmt.Sprintf("an execution did not return within 120 s (a start costs about a millisecond); case: %s", core.CurrentCase())
+				if dir := os.Getenv("VERIF_HANGDUMP"); dir != "" { // development aid: where every goroutine stands
+					buf := make([]byte, 4<<20)
+					os.WriteFile(filepath.Join(dir, fmt.Sprintf("hang-%d.txt", os.Getpid())), buf[:runtime.Stack(buf, true)], 0o644)
+				}
 				if d.HangIsViolation {
 					c.Report(prop+"/hang/"+core.Hash(core.CurrentCase()), "non-termination", msg, json.RawMessage(core.CurrentCase()))
 					c.S.Exhaustive = false
